@@ -5,6 +5,7 @@ choices are re-derived from the case's sched_seed, so a shrunk list is still one
 A candidate is kept while a violation of the *same class* persists.
 """
 import copy
+import time
 
 from .core import isolated
 
@@ -16,11 +17,14 @@ def family(cls: str) -> str:
 
 def minimise(engine, case, cls, max_exec=None):
     max_exec = max_exec or getattr(engine, "SHRINK_EXEC", 600)
+    # minimisation is bounded in wall time too (long histories take seconds per candidate); what
+    # has been reached by then is reported - it still replays, it is just not minimal
+    deadline = time.time() + getattr(engine, "SHRINK_TIME", 300)
     n_exec = [0]
     best_v = [None]
 
     def test(ops, base=None):
-        if n_exec[0] >= max_exec:
+        if n_exec[0] >= max_exec or (n_exec[0] > 2 and time.time() > deadline):
             return False
         n_exec[0] += 1
         c = dict(base or case)
